@@ -192,6 +192,12 @@ func checkValue(c *core.Ctx, idx int64, v cty.Value, r *core.Rand) {
 		// Either ambiguous (nothing decidable) or already reported.
 	}
 	c.CountN("visits:Walk", int64(len(evs)))
+	rt := &retained{}
+	walkPaths := make([]cty.Path, len(evs))
+	for i := range evs {
+		walkPaths[i] = evs[i].path
+	}
+	rt.keepPaths("cty.Walk", walkPaths) // the copies made inside the callback must stay what they were
 
 	// ---- Path.Apply on every reported path not crossing a set ------------
 	byCanon := map[string]*member{}
@@ -213,9 +219,11 @@ func checkValue(c *core.Ctx, idx int64, v cty.Value, r *core.Rand) {
 		}
 		var got cty.Value
 		var aerr error
+		psnap := snapPath(ev.path)
 		o := core.Guard(func() { got, aerr = ev.path.Apply(v) })
 		c.Eval(1)
 		c.Count("op:Path.Apply(reported)")
+		argPath(c, "Path.Apply", w, psnap, ev.path)
 		if o.Panicked {
 			c.Violate("Path.Apply", "panic: "+core.PanicClass(o.PanicMsg), "reported-path,"+memberClass(m), w, fmt.Sprintf("path %#v: %s\n%s", ev.path, o.PanicMsg, o.Stack))
 			continue
@@ -270,6 +278,16 @@ func checkValue(c *core.Ctx, idx int64, v cty.Value, r *core.Rand) {
 		equalAsIdentity(c, "cty.Transform", "identity transform does not return the input", v, tres, canonical, "")
 		checkVisits(c, "cty.Transform", v, model, tevs, "post")
 		c.CountN("visits:Transform", int64(len(tevs)))
+		rt.keepValue("cty.Transform", tres)
+		var tres2 cty.Value
+		o2 := core.Guard(func() {
+			tres2, _ = cty.Transform(v, func(p cty.Path, x cty.Value) (cty.Value, error) { return x, nil })
+		})
+		c.Eval(1)
+		c.Count("clause:repeatable")
+		if o2.Panicked || !rawSame(tres2, tres) {
+			c.Violate("cty.Transform", facetNotRepeatable, "identity", w, fmt.Sprintf("first %#v, second %#v %s", tres, tres2, o2.PanicMsg))
+		}
 		c.Count("clause:same-path-set")
 		if len(tevs) != len(evs) {
 			c.Violate("cty.Transform", "identity transform visits a different number of paths than Walk", "", w, fmt.Sprintf("Walk %d, Transform %d", len(evs), len(tevs)))
@@ -298,7 +316,10 @@ func checkValue(c *core.Ctx, idx int64, v cty.Value, r *core.Rand) {
 	checkReplace(c, v, model, r, w)
 
 	// ---- marks by path -----------------------------------------------------
-	checkMarkPaths(c, v, model, r, w, canonical)
+	checkMarkPaths(c, v, model, r, w, canonical, rt)
+
+	// ---- results returned earlier are still what they were ------------------
+	rt.recheck(c, w)
 
 	if c.WantSample() && len(model) >= 4 && marked {
 		paths := make([]string, 0, len(evs))
@@ -469,7 +490,7 @@ func checkReplace(c *core.Ctx, v cty.Value, model []member, r *core.Rand, w stri
 	}
 }
 
-func checkMarkPaths(c *core.Ctx, v cty.Value, model []member, r *core.Rand, w string, canonical bool) {
+func checkMarkPaths(c *core.Ctx, v cty.Value, model []member, r *core.Rand, w string, canonical bool, rt *retained) {
 	// UnmarkDeepWithPaths
 	var um cty.Value
 	var pvm []cty.PathValueMarks
@@ -482,6 +503,23 @@ func checkMarkPaths(c *core.Ctx, v cty.Value, model []member, r *core.Rand, w st
 	}
 	passive(c, "Value.UnmarkDeepWithPaths", um, w)
 	c.Count("clause:unmark-deep-with-paths")
+	rt.keepPVM("Value.UnmarkDeepWithPaths", pvm)
+	rt.keepValue("Value.UnmarkDeepWithPaths", um)
+	{
+		// repeated: same unmarked value, same (path, marks) pairs (order among attributes is free)
+		var umB cty.Value
+		var pvmB []cty.PathValueMarks
+		ob := core.Guard(func() { umB, pvmB = v.UnmarkDeepWithPaths() })
+		c.Eval(1)
+		c.Count("clause:repeatable")
+		if ob.Panicked {
+			c.Violate("Value.UnmarkDeepWithPaths", facetNotRepeatable, "panic", w, ob.PanicMsg)
+		} else if !rawSame(umB, um) {
+			c.Violate("Value.UnmarkDeepWithPaths", facetNotRepeatable, "value", w, fmt.Sprintf("first %#v, second %#v", um, umB))
+		} else if d := pvmSetDiff(pvm, pvmB); d != "" {
+			c.Violate("Value.UnmarkDeepWithPaths", facetNotRepeatable, "[]PathValueMarks", w, fmt.Sprintf("first %#v, second %#v: %s", pvm, pvmB, d))
+		}
+	}
 	if left := mon.DeepMarks(um); len(left) > 0 {
 		c.Violate("Value.UnmarkDeepWithPaths", "result still carries marks", "", w, fmt.Sprintf("result %#v", um))
 	}
@@ -559,21 +597,39 @@ func checkMarkPaths(c *core.Ctx, v cty.Value, model []member, r *core.Rand, w st
 		orders = append(orders, sh)
 	}
 	for oi, ord := range orders {
-		var back cty.Value
-		o = core.Guard(func() { back = um.MarkWithPaths(ord) })
-		c.Eval(1)
-		c.Count("op:MarkWithPaths(round-trip)")
-		if o.Panicked {
-			c.Violate("Value.MarkWithPaths", "panic: "+core.PanicClass(o.PanicMsg), "round-trip", w, o.PanicMsg+"\n"+o.Stack)
-			continue
-		}
-		passive(c, "Value.MarkWithPaths", back, w)
-		c.Count("clause:unmark-remark-round-trip")
 		extra := ""
 		if oi == 1 {
 			extra = " (path marks supplied in shuffled order)"
 		}
-		equalAsIdentity(c, "Value.MarkWithPaths", "MarkWithPaths(UnmarkDeepWithPaths(v)) does not restore v", v, back, canonical, extra)
+		ordSnap := snapPVM(ord)
+		var first cty.Value
+		// the same retained slice is handed over twice: a caller may re-apply the marks it
+		// collected as often as it likes
+		for round := 0; round < 2; round++ {
+			var back cty.Value
+			o = core.Guard(func() { back = um.MarkWithPaths(ord) })
+			c.Eval(1)
+			c.Count("op:MarkWithPaths(round-trip)")
+			if o.Panicked {
+				c.Violate("Value.MarkWithPaths", "panic: "+core.PanicClass(o.PanicMsg), "round-trip", w, o.PanicMsg+"\n"+o.Stack)
+				break
+			}
+			passive(c, "Value.MarkWithPaths", back, w)
+			argPVM(c, "Value.MarkWithPaths", w+extra, ordSnap, ord)
+			c.Count("clause:unmark-remark-round-trip")
+			ex := extra
+			if round == 1 {
+				ex += " (second call with the same path marks)"
+				c.Count("clause:repeatable")
+				if !rawSame(back, first) {
+					c.Violate("Value.MarkWithPaths", facetNotRepeatable, "round-trip", w, fmt.Sprintf("first %#v, second %#v%s", first, back, extra))
+				}
+			} else {
+				first = back
+				rt.keepValue("Value.MarkWithPaths", back)
+			}
+			equalAsIdentity(c, "Value.MarkWithPaths", "MarkWithPaths(UnmarkDeepWithPaths(v)) does not restore v", v, back, canonical, ex)
+		}
 	}
 
 	// MarkWithPaths with caller-built paths marks exactly the named members
@@ -602,12 +658,24 @@ func checkMarkPaths(c *core.Ctx, v cty.Value, model []member, r *core.Rand, w st
 		req = append(req, cty.PathValueMarks{Path: libPath(m.steps), Marks: ms})
 	}
 	var mk cty.Value
+	reqSnap := snapPVM(req)
 	o = core.Guard(func() { mk = v.MarkWithPaths(req) })
 	c.Eval(1)
 	c.Count("op:MarkWithPaths(chosen)")
 	if o.Panicked {
 		c.Violate("Value.MarkWithPaths", "panic: "+core.PanicClass(o.PanicMsg), "chosen-paths", w, fmt.Sprintf("%#v: %s\n%s", req, o.PanicMsg, o.Stack))
 		return
+	}
+	argPVM(c, "Value.MarkWithPaths", w, reqSnap, req)
+	{
+		var mk2 cty.Value
+		o2 := core.Guard(func() { mk2 = v.MarkWithPaths(req) })
+		c.Eval(1)
+		c.Count("clause:repeatable")
+		if o2.Panicked || !rawSame(mk2, mk) {
+			c.Violate("Value.MarkWithPaths", facetNotRepeatable, "chosen-paths", w, fmt.Sprintf("request %#v: first %#v, second %#v %s", reqSnap, mk, mk2, o2.PanicMsg))
+		}
+		argPVM(c, "Value.MarkWithPaths", w, reqSnap, req)
 	}
 	passive(c, "Value.MarkWithPaths", mk, w)
 	c.Count("clause:mark-exactly-named-members")
